@@ -67,6 +67,19 @@ Theorem requested_paths_independent : forall c t ps,
 Proof. exact requested_paths_independent_lemma. Qed.
 Print Assumptions requested_paths_independent.
 
+(* The general statement for requested paths: files and directories mixed, missing paths, the sub-directory cut-off
+   on or off.  The Extract calls are exactly the specified ones: per requested path, in request order, a directory
+   as the whole-tree rules prescribe from that directory down (with the .gitignore files of all its ancestors and
+   the cut-off rule over the whole request list), a file iff required (kind and size permitting).  Subsumes
+   subdir_request_equiv, requested_file_direct and requested_paths_independent. *)
+Theorem requested_paths_exact : forall c t,
+  c_paths c <> [] -> wf_tree t = true -> fault_free t = true -> no_limits c = true -> no_xpanic c ->
+  (forall p, In p (c_paths c) -> canonical_path p = true) ->
+  (c_fatal c = false \/ forall p, In p (c_paths c) -> lookup t p <> None) ->
+  fs_calls c t = expected_paths c t.
+Proof. exact requested_paths_exact_lemma. Qed.
+Print Assumptions requested_paths_exact.
+
 (* non-vacuity, and the former defects as regression examples: a nested .gitignore; regex and glob both set
    (./a by the regex, ./b by the glob: nothing is scanned); a .gitignore in the scan root ("a": ./a and ./b/a ignored) *)
 Example repaired_examples :
